@@ -348,6 +348,44 @@ def part_grid_reductions(chk):
         chk.count('grid reduction configurations' + (' (plot-only rank)' if plot else ''))
 
 
+def part_collector_empty_blocks(chk):
+    """DiagnosticCollector.collect + reduce on grids that are over-decomposed (a computing process owns no points): every process must reach
+    every reduction (finding F23: the local min / max of an empty block raised before the collective)"""
+    from pygyro.model.layout import getLayoutHandler
+    from pygyro.model.grid import Grid
+    from pygyro.diagnostics.diagnostic_collector import DiagnosticCollector
+    rng = chk.rng
+    std4 = {'flux_surface': [0, 3, 1, 2], 'v_parallel': [0, 2, 1, 3], 'poloidal': [3, 2, 1, 0]}
+    for it in range(chk.n(4, 16)):
+        npts = [rng.randint(3, 5) for _ in range(4)]
+        P = [(npts[0] + 1, 1), (1, npts[2] + 1), (2, npts[2] + 1), (npts[0] + 1, 2)][it % 4]       # one more process than points along a direction
+        if P[0] * P[1] > 12:
+            P = (npts[0] + 1, 1)
+        eta = [np.linspace(0.5, 2, npts[0]), np.linspace(0, 2 * np.pi, npts[1], endpoint=False), np.linspace(0, 1, npts[2], endpoint=False),
+               np.linspace(-2, 2, npts[3])]
+        lay = 'v_parallel'        # the layout the collector is written for
+
+        def body():
+            comm = MPI.COMM_WORLD
+            h = getLayoutHandler(comm, std4, list(P), eta)
+            f = Grid(eta, [None] * 4, h, lay, comm)
+            f.getAllData()[:] = 1.0 + comm.Get_rank()
+            h3 = getLayoutHandler(comm, {'v_parallel_2d': [0, 2, 1], 'mode_solve': [1, 2, 0]}, list(P), eta[:3])
+            phi = Grid(eta[:3], [None] * 3, h3, 'v_parallel_2d', comm, dtype=np.complex128)
+            phi.getAllData()[:] = 1.0
+            dc = DiagnosticCollector(comm, 2, 1, f, phi)
+            dc.collect(f, phi, 0)
+            dc.reduce()
+            return (float(dc.min_val[0]), float(dc.max_val[0])) if comm.Get_rank() == 0 else None
+        case = {'npts': npts, 'process_grid': list(P), 'layout': lay, 'what': 'DiagnosticCollector.collect + reduce with an empty block'}
+        ref = run_policies(chk, P[0] * P[1], body, case, 'diagnostic collector', policies=('reverse',))
+        if ref is None:
+            continue
+        chk.case(('collector-empty', tuple(npts), tuple(P), lay), nontrivial=True)
+        chk.traces_validated += P[0] * P[1]
+        chk.count('diagnostic collector with an empty block')
+
+
 def part_setup_restart(chk):
     """set-up, setupSave (bcast iff no folder name), checkpoint write and the restart set-up (setupFromFile), with and without a
     plot-only rank: every member must issue the same collectives on the same communicators"""
@@ -612,6 +650,7 @@ def run(chk):
     finally:
         drv.close()
     part_grid_reductions(chk)
+    part_collector_empty_blocks(chk)
     part_grid_layout_changes(chk)
     part_swapper_plot_rank(chk)
     part_setup_restart(chk)
